@@ -32,7 +32,7 @@ def _dims(d):
     return D, F, cond, scale
 
 
-@subcheck(SUBCHECKS, 'mvdr', quick=700, thorough=12000)
+@subcheck(SUBCHECKS, 'mvdr', quick=1400, thorough=12000)
 def mvdr(d, ctx):
     bf = _bf()
     D, F, cond, scale = _dims(d)
@@ -84,7 +84,7 @@ def mvdr(d, ctx):
     ctx.nontrivial(F != D and cond >= 10)
 
 
-@subcheck(SUBCHECKS, 'lcmv', quick=350, thorough=6000)
+@subcheck(SUBCHECKS, 'lcmv', quick=700, thorough=6000)
 def lcmv(d, ctx):
     bf = _bf()
     D, F, cond, scale = _dims(d)
@@ -143,7 +143,7 @@ def _target(d, rng, D, F, cond, scale, lead=None):
     return gen.hpd(rng, D, min(cond, 1e3), scale, lead), None, kind
 
 
-@subcheck(SUBCHECKS, 'souden_wmwf', quick=900, thorough=15000)
+@subcheck(SUBCHECKS, 'souden_wmwf', quick=1800, thorough=15000)
 def souden_wmwf(d, ctx):
     bf = _bf()
     D, F, cond, scale = _dims(d)
@@ -207,7 +207,7 @@ def _criterion(mat, phi_xx, phi_nn):
     return out
 
 
-@subcheck(SUBCHECKS, 'reference_channel', quick=450, thorough=8000)
+@subcheck(SUBCHECKS, 'reference_channel', quick=900, thorough=8000)
 def reference_channel(d, ctx):
     bf = _bf()
     D, F, cond, scale = _dims(d)
@@ -244,7 +244,7 @@ def reference_channel(d, ctx):
     ctx.label(which, f'target={tk}')
 
 
-@subcheck(SUBCHECKS, 'wmwf_options', quick=400, thorough=7000)
+@subcheck(SUBCHECKS, 'wmwf_options', quick=800, thorough=7000)
 def wmwf_options(d, ctx):
     """rarely used keywords of the Wiener filter / Souden MVDR"""
     bf = _bf()
